@@ -245,8 +245,10 @@ pub fn c04_long_sessions(pools: &Pools, seed: u64, thorough: bool, r: &mut Repor
         }
         let keys = vec![pools.key(p, 0), pools.key(p, 1)];
         let mut rng = Rng::new(seed, "c04-long", p as u64);
-        let toks: Vec<(String, usize)> = (0..6).filter_map(|i| json_token(p, &keys[i % 2], i, Some("ftr"), Some("ia")).map(|t| (t, i % 2))).collect();
-        if toks.len() != 6 {
+        // 6 tokens on the slow signers, 300 elsewhere: more distinct tokens than any small cache holds
+        let ntok = if matches!(p, P::V1P | P::V3P) { 6 } else { 300 };
+        let toks: Vec<(String, usize)> = (0..ntok).filter_map(|i| json_token(p, &keys[i % 2], i, Some("ftr"), Some("ia")).map(|t| (t, i % 2))).collect();
+        if toks.len() != ntok {
             r.inconclusive.push(format!("C04 long session: cannot build tokens for {}", p.name()));
             continue;
         }
@@ -752,7 +754,7 @@ pub fn replay_c04(case: &Value) -> Report {
     r
 }
 
-pub const RULE_C04: &str = "per protocol 24 (thorough 1500) authentic tokens built at core/generic/batteries layer (footer none/text/empty, assertion none/text) are presented at the same layer under every single-bit neighbour of the key (all 256 bits of symmetric and Ed25519 public keys, all 392 bits of the compressed P-384 point, all bits of the RSA public-key DER), all-zero, all-one, 50 random (1500 for local tokens whose plaintext is 0-2 bytes, incl. the claim-less '{}' of the generic builder: garbage from an unauthenticated decryption is well-formed only when short), rotated/reversed/half-zeroed keys, every other pool key, and for v3.public the ECDSA 'duplicate-signature' keys recovered from the token's own signature over the specified digest and over five binding-free digest variants (the signer's key must be the only recovered key that is accepted); NESTED parser pairs (160, thorough 2000: a second parser object of any protocol/layer is created, used and dropped in the middle of another parser's session on the same thread; both must answer as they do alone); parser sessions incl. LONG ones (one parser object, 3000 (thorough 20000-70000) parses of right-key / other-key / one-character-changed tokens in a seeded order); oracle: any Ok under another key is a violation (a key that fails to parse counts as 'fails'); distinct_nontrivial = distinct (protocol, layer, key class, rejection variant)";
+pub const RULE_C04: &str = "per protocol 24 (thorough 1500) authentic tokens built at core/generic/batteries layer (footer none/text/empty, assertion none/text) are presented at the same layer under every single-bit neighbour of the key (all 256 bits of symmetric and Ed25519 public keys, all 392 bits of the compressed P-384 point, all bits of the RSA public-key DER), all-zero, all-one, 50 random (1500 for local tokens whose plaintext is 0-2 bytes, incl. the claim-less '{}' of the generic builder: garbage from an unauthenticated decryption is well-formed only when short), rotated/reversed/half-zeroed keys, every other pool key, and for v3.public the ECDSA 'duplicate-signature' keys recovered from the token's own signature over the specified digest and over five binding-free digest variants (the signer's key must be the only recovered key that is accepted); NESTED parser pairs (160, thorough 2000: a second parser object of any protocol/layer is created, used and dropped in the middle of another parser's session on the same thread; both must answer as they do alone); parser sessions incl. LONG ones (one parser object, 3000 (thorough 20000-70000) parses of right-key / other-key / one-character-changed presentations of 300 distinct tokens in a seeded order); oracle: any Ok under another key is a violation (a key that fails to parse counts as 'fails'); distinct_nontrivial = distinct (protocol, layer, key class, rejection variant)";
 
 // ==========================================================================================
 // C05
